@@ -338,7 +338,7 @@ func Persist(run *hx.Run, r *hx.Rng, kinds []string) {
 	siblings := 0
 	ascending := r.Bool()
 	if r.Bool() {
-		siblingOp = hx.Pick(r, []string{"append", "append", "append", "repeat", "weld", "set_attr", "set_indices", "translate", "scale3", "rotate",
+		siblingOp = hx.Pick(r, []string{"append", "append", "append", "append", "append", "append", "repeat", "weld", "set_attr", "set_indices", "translate", "scale3", "rotate",
 			"apply_trs", "unweld", "remove_unref", "filter", "slice", "flip", "set_materials", "scale_along_normal"})
 		siblings = r.Range(2, 4)
 		pd.Init = pd.Init[:1]
@@ -346,6 +346,18 @@ func Persist(run *hx.Run, r *hx.Rng, kinds []string) {
 		for i := 0; i < 3; i++ { // partners from small to big
 			pd.Init = append(pd.Init, Random(r, Options{Topo: base.Topo, FixTopo: true, MaxVerts: 3 + 5*i, MaxPrims: 1 + 3*i}))
 			pd.Spare = append(pd.Spare, hx.Pick(r, []int{0, 8, 64}))
+		}
+		if siblingOp == "append" {
+			// sibling appends: the earlier partner tiny (its result has few vertices), later ones bigger with
+			// permuted indices, room for all of them behind the base's slices, mostly small -> big
+			pd.Spare[0] = 64
+			ascending = !r.Chance(1, 4)
+			siblings = 3
+			for i := 1; i <= 3; i++ {
+				for tries := 0; tries < 8 && (len(pd.Init[i].Idx) == 0 || pd.Init[i].NVerts() < 1+3*(i-1)); tries++ {
+					pd.Init[i] = Random(r, Options{Topo: base.Topo, FixTopo: true, MaxVerts: 3 + 5*(i-1), MaxPrims: 1 + 3*(i-1)})
+				}
+			}
 		}
 		if nsteps < siblings+1 {
 			nsteps = siblings + 1
